@@ -37,6 +37,7 @@ FUNCS = ["litex.soc.cores.clock.xilinx_common.XilinxClocking.compute_config", "l
 SL = Fraction(1, 10**9)
 
 
+ECP5_PHASES = [100, 87, 200, 33]          # not multiples of 45 degrees: the rounding to eighths of a VCO period carries for some dividers
 PHASES = [0, 90, 45, 180, 270, 135]      # requested phase of output i (concrete, distinct: a swapped or dropped phase is visible)
 
 
@@ -327,8 +328,29 @@ def job_ecp5(win, nout, margin, tag):
             return AND(*c)
         try:
             for i in range(nout):
-                pll.create_clkout(ClockDomain("cd%d" % i), fs_[i], phase=0, margin=ctx.exact(margin), uses_dpa=False)
-            cfg = pll.compute_config()
+                pll.create_clkout(ClockDomain("cd%d" % i), fs_[i], phase=ECP5_PHASES[i], margin=ctx.exact(margin), uses_dpa=False)
+            # the search is run ONCE, by do_finalize itself (it registers a feedback-only output on the object, a second call would see it)
+            captured = []
+            real_cc = pll.compute_config
+
+            def cc_once():
+                captured.append(real_cc())
+                return captured[-1]
+            pll.compute_config = cc_once
+            fin_err = None
+            try:
+                pll.finalize()
+            except (ValueError, AssertionError):
+                if not captured:
+                    raise
+                fin_err = "refusal after the search"
+            except pysym.Unsupported:
+                raise
+            except Exception as e:
+                if not captured:
+                    raise
+                fin_err = "%s: %s" % (type(e).__name__, e)
+            cfg = captured[0]
         except (ValueError, AssertionError):
             ctx.event("refused")
             anyok = [spec(ci, co, cb, ds, -SL) for ci in range(i0, i0 + iw) for co in range(o0, o0 + ow) for cb in range(b0, b0 + bw)
@@ -346,8 +368,24 @@ def job_ecp5(win, nout, margin, tag):
         outs = [within(vco_loop / d, f, margin, SL) for f, d in zip(fs_, ds)]
         lim = AND(vco_loop >= Fraction(vmin) * (1 - SL), vco_loop <= Fraction(vmax) * (1 + SL), clkin / ci >= Fraction(pmin) * (1 - SL), clkin / ci <= Fraction(pmax) * (1 + SL))
         fbr = OR(*[fbdiv == k for k in range(o0, o0 + ow)])
-        return dict(dividers_inside_ranges=AND(inr, fbr), feedback_path_consistent_with_vco=loop_ok, outputs_within_margin_and_vco_pfd_in_range=AND(lim, *outs))
-    checks = ["dividers_inside_ranges", "feedback_path_consistent_with_vco", "outputs_within_margin_and_vco_pfd_in_range", "refused_only_if_no_setting_in_window"]
+        res = dict(dividers_inside_ranges=AND(inr, fbr), feedback_path_consistent_with_vco=loop_ok, outputs_within_margin_and_vco_pfd_in_range=AND(lim, *outs))
+        # emitted EHXPLLL parameters = configuration; the requested phase is emitted as the NEAREST multiple of 1/8 VCO period
+        # (phase steps of 45/div degrees, coded as CPHASE = whole VCO periods + (div - 1), FPHASE = eighths)
+        if fin_err is not None:
+            res["instance_parameters_equal_config_and_phase"] = False
+        else:
+            prm = pll.params
+            n_to_l = {0: "P", 1: "S", 2: "S2", 3: "S3"}
+            same = (prm.get("p_CLKI_DIV") == ci) and (prm.get("p_CLKFB_DIV") == cb) and (prm.get("p_FEEDBK_PATH") == "INT_O%s" % n_to_l[fb])
+            for i in range(nout):
+                l = n_to_l[i]
+                d = ds[i]
+                same = same and (prm.get("p_CLKO%s_DIV" % l) == d)
+                steps = (prm.get("p_CLKO%s_CPHASE" % l) - (d - 1)) * 8 + prm.get("p_CLKO%s_FPHASE" % l)
+                same = same and (0 <= prm.get("p_CLKO%s_FPHASE" % l) <= 7) and (abs(Fraction(steps * 45, d) - ECP5_PHASES[i]) <= Fraction(45, 2 * d))
+            res["instance_parameters_equal_config_and_phase"] = same
+        return res
+    checks = ["dividers_inside_ranges", "feedback_path_consistent_with_vco", "outputs_within_margin_and_vco_pfd_in_range", "instance_parameters_equal_config_and_phase", "refused_only_if_no_setting_in_window"]
     return run_pysym("ecp5pll_%s" % tag, body, checks, required_events=["configured", "refused"], funcs=FUNCS, cfg=dict(window=win, outputs=nout, margin=margin), replay_dir=rdir(), max_paths=300000)
 
 
